@@ -276,6 +276,44 @@ def Sess.step (s : Sess) : SessOp → Sess
 
 def Sess.run (s : Sess) (ops : List SessOp) : Sess := ops.foldl Sess.step s
 
+/-! ### the same call sites with the plugin chain attached: what each notification does
+
+  control.go `CloseProxy` (explicit close) and `worker` (session end) both build a
+  `notifyContent{User: loginMsg.User…, CloseProxy{ProxyName: pxy.GetName()}}` per proxy and start
+  ONE goroutine per proxy:  `go func() { _ = ctl.pluginManager.CloseProxy(notifyContent) }()`.
+  The goroutine's result is discarded; no goroutine waits for, or looks at, another one.
+  `worker` ranges over the map `ctl.proxies` (any order). -/
+
+/-- the `Handle` calls made by the notification goroutine of proxy `n`
+    (`mk n` = the `CloseProxyContent` built for it; `R` = `pluginManager.closeProxyPlugins`) -/
+def notifyGo {C : Type} (R : List (Plugin C)) (mk : Str → C) (n : Str) : List (Seen C) :=
+  (closeAll R (mk n)).2
+
+/-- session bookkeeping as `Sess`, plus `notes`: one entry per notification goroutine started (in
+    start order), holding the `Handle` calls that goroutine makes (in its own order) -/
+structure SessP (C : Type) where
+  proxies : List Str := []
+  stopped : List Str := []
+  notes : List (List (Seen C)) := []
+
+/-- control.go `RegisterProxy` / `CloseProxy` / `worker` with the notification goroutines spelled out.
+    `sessionEnd`: `for _, pxy := range ctl.proxies { pxy.Close(); …; go CloseProxy(notifyContent) }`
+    (the model ranges in registration order; `C15.notify_all_schedules` covers every other map order
+    and every interleaving of the goroutines). -/
+def SessP.step {C : Type} (R : List (Plugin C)) (mk : Str → C) (s : SessP C) : SessOp → SessP C
+  | .newProxy n => if s.proxies.contains n then s else { s with proxies := s.proxies ++ [n] }
+  | .closeProxy n =>
+    if s.proxies.contains n then
+      { proxies := s.proxies.filter (· ≠ n), stopped := s.stopped ++ [n],
+        notes := s.notes ++ [notifyGo R mk n] }
+    else s                                                      -- `if !ok { return }`
+  | .sessionEnd =>
+    { proxies := [], stopped := s.stopped ++ s.proxies,
+      notes := s.notes ++ s.proxies.map (notifyGo R mk) }
+
+def SessP.run {C : Type} (R : List (Plugin C)) (mk : Str → C) (s : SessP C) (ops : List SessOp) : SessP C :=
+  ops.foldl (SessP.step R mk) s
+
 /-! ### the concrete contents and plugin behaviours the correspondence engine uses -/
 
 /-- two visible string members of a content (per op: Login.User / ClientAddress,
@@ -294,7 +332,7 @@ inductive Beh
   | err | nil | rejsuf (x r : Str) | errsuf (x : Str)
   | hacc | happ (x : Str) | hpart (x : Str) | haccC (x : Str) | hrej (r : Str) | hrejU (r : Str)
   | hempty | hnull | hcnull | hcnullU | hcstr | hbadfield | hmal | htrunc | hstatus (code : Nat)
-  | hconn | hrejsuf (x r : Str)
+  | hconn | hrejsuf (x r : Str) | herrsuf (x : Str)
   deriving DecidableEq, Repr
 
 def Beh.reply (b : Beh) (c : Content) : HttpReply Content :=
@@ -317,11 +355,15 @@ def Beh.reply (b : Beh) (c : Content) : HttpReply Content :=
   | .hrejsuf x r =>
     if x.isSuffixOf c.a then .status 200 (.parsed true r false .absent)
     else .status 200 (.parsed false [] true .absent)
+  | .herrsuf x =>                   -- transient / content-dependent failure: 500 for some contents only
+    if x.isSuffixOf c.a then .status 500 (.parsed false [] true .absent)
+    else .status 200 (.parsed false [] true .absent)
   | _ => .connErr
 
 def Beh.isHttp : Beh → Bool
   | .hacc | .happ _ | .hpart _ | .haccC _ | .hrej _ | .hrejU _ | .hempty | .hnull | .hcnull
-  | .hcnullU | .hcstr | .hbadfield | .hmal | .htrunc | .hstatus _ | .hconn | .hrejsuf _ _ => true
+  | .hcnullU | .hcstr | .hbadfield | .hmal | .htrunc | .hstatus _ | .hconn | .hrejsuf _ _
+  | .herrsuf _ => true
   | _ => false
 
 def Beh.handle (b : Beh) (c : Content) : Ret Content :=
